@@ -133,6 +133,28 @@ def build_traces(path, tier, seed):
             single = rows(surface.calc_surface_energy(s, np.array([tts[j]]), nodal=nodal, up_red=ru, down_red=rd, trim=True))[0]
             add({"kind": "rel", "clause": "RowEqualsSingle", "x": enc_seq(single), "y": enc_seq(e[j]), "f": enc(1.0)},
                 {"kind": "rel", "law": "RowEqualsSingle", "row": j, "n": n})
+    # 2b'. one LARGE batch (thousands of travel times sorted by depth, more than 2^20 work-array elements: implementations may process
+    #      the rows in blocks), untrimmed, the wave still moving at the end: sampled rows (and the deepest one, which fixes the common
+    #      width) are validated against the definition over their WHOLE width like any other energy event
+    for big in range(1 if tier == "quick" else 3):
+        n = int(rng.integers(300, 500))
+        x = np.cumsum(rng.standard_normal(n)) * 0.1 + rng.standard_normal(n)
+        dt = 0.01
+        s = eqsig.AccSignal(x, dt)
+        nt = int(rng.integers(3500, 4500))
+        tts_big = np.sort(np.round(rng.uniform(0.0, 1.2, size=nt) / (dt / 2)) * (dt / 2) if big % 2 == 0 else rng.uniform(0.0, 1.2, size=nt))
+        nodal = bool(big % 2)
+        ru, rd = (1.0, 1.0) if not nodal else (1.0, 0.7)
+        kw = dict(nodal=nodal, up_red=ru, down_red=rd, trim=False, start=False)
+        out = rows(surface.calc_surface_energy(s, tts_big, **kw))
+        cum = rows(surface.calc_cum_abs_surface_energy(s, tts_big, **kw))
+        mot = rows(surface.get_time_shift_motions(s, tts_big, **kw))
+        pick = sorted(set([0, nt - 1] + [int(v) for v in rng.integers(1, nt - 1, size=4)]))
+        ok_shape = len(out) == nt and len(cum) == nt and len(mot) == nt
+        sub = lambda r: [enc_seq(r[j_]) for j_ in pick] if ok_shape else []
+        add({"kind": "energy", "dt": enc(dt), "a": enc_seq(x), "tts": enc_seq(tts_big[pick]), "nodal": nodal, "ru": enc_seq([ru] * len(pick)), "rd": enc_seq([rd] * len(pick)),
+             "trim": False, "start": False, "stt": enc(0.0), "out": sub(out), "cum": sub(cum), "mot": sub(mot)},
+            {"kind": "energy", "n": n, "batch": nt, "rows_validated": pick, "nodal": nodal, "note": "large batch, untrimmed: rows over their whole width"})
     # 2c. each row of a batch equals the single-travel-time result under EVERY option combination (rows are compared on
     #     their common length: without trimming the batch decides how much padding every row gets)
     for rix in range(2 if tier == "quick" else 8):
